@@ -60,7 +60,14 @@ def _site(repo, caller, node, callee, is_ctor):
     args, keywords = list(node.args), list(node.keywords)
     if isinstance(node.func, ast.Name):
         # name = functools.partial(f, *a, **k); name(*b, **m)  binds like  f(*a, *b, **k, **m)
-        defs = [n for n in ast.walk(caller.node) if isinstance(n, ast.Assign) and len(n.targets) == 1
+        scope = caller.node
+        if not any(n is node for n in ast.walk(scope)):
+            # the call sits in a helper that was followed as part of the caller: the name is bound there
+            for g in repo.all_functions():
+                if any(n is node for n in ast.walk(g.node)):
+                    scope = g.node
+                    break
+        defs = [n for n in ast.walk(scope) if isinstance(n, ast.Assign) and len(n.targets) == 1
                 and isinstance(n.targets[0], ast.Name) and n.targets[0].id == node.func.id]
         if len(defs) == 1 and isinstance(defs[0].value, ast.Call) and (dotted(defs[0].value.func) or '').split('.')[-1] == 'partial' \
                 and defs[0].value.args:
